@@ -258,6 +258,24 @@ def check_matches(rep, prog):
                       "message parameters are not the designated PTE bytes")
     rep.check(okm, rule, "suffix ' - PEL entry created' exactly for reported-error PTEs", "PTETableEntry.get_message", "message += ' - PEL entry created'",
               "the reported suffix is not appended exactly for reported errors (%s): %r" % (detail, msg))
+    # an entry without parameters is formatted all the same ('%%' in its text is an escaped percent sign)
+    I4 = Interpreter(prog)
+    ent4 = I4.new(IL + "PTETableEntry", [pat, fmtm, Const(()), Sym("f"), Sym("l")])
+    msg4 = I4.method(ent4, "get_message", [pte])
+    raw_paths = []
+
+    def lv4(t, cs):
+        if isinstance(t, Ite):
+            lv4(t.a, cs + [t.c]), lv4(t.b, cs + [not_(t.c)])
+        elif isinstance(t, Op) and t.op == "concat" and t.args and t.args[-1] == Const(" - PEL entry created"):
+            lv4(t.args[0] if len(t.args) == 2 else Op("concat", *t.args[:-1]), cs)
+        elif t == fmtm and not any(isinstance(x, Sym) and x.kind == "exc" for c in cs for x in walk(c)):
+            raw_paths.append(cs)
+    lv4(msg4, [])
+    rep.check(not raw_paths, rule, "a message without parameters still goes through the %-format (escapes are resolved)",
+              "PTETableEntry.get_message", "message = self.message_format % param_values",
+              "for a table entry without (valid) parameters the raw format text is returned without %-formatting: '%%' is shown "
+              "as two characters")
     # params filter 1..4
     I3 = Interpreter(prog)
     ent3 = I3.new(IL + "PTETableEntry", [pat, fmtm, I3.mk_list([Const(0), Const(1), Const(4), Const(5), Const(3)], "tuple"), Sym("f"), Sym("l")])
